@@ -43,7 +43,7 @@ def parse_vcf(path, samples):
     for r in recs:
         for s, c in zip(smp, r["calls"]):
             gt = c.get("GT")
-            if gt is None or gt[0] is None:
+            if gt is None or gt[0] is None or None in gt[0]:
                 continue
             ps = c.get("PS")
             key = (s, r["chrom"], r["pos"])
@@ -107,35 +107,80 @@ def is_multi(v):
     return bool(v.get("alts"))
 
 
+def gt_vector(text):
+    """Genotype of an extra record's GT text: `./.` -> Genotype([])"""
+    al = text.replace("|", "/").split("/")
+    return [] if "." in al else sorted(int(a) for a in al)
+
+
 def detected_reads(fa, bam, case, sample, chrom, U):
+    """the reads ReadSetReader delivers from the tagged BAM for the variant table of the haplotagphase input (the case's
+    variants AND the records with a symbolic ALT allele, each with the genotype of its own record), the real vote table on
+    them, and the (position, restricted genotype) pairs that reached `ReadSetReader.realign`"""
     from whatshap.cli import PhasedInputReader
     from whatshap.core import NumericSampleIds, Genotype
     from whatshap.vcf import BiallelicVcfVariant, MultiallelicVcfVariant
-    vs, gts = [], []
+    from whatshap import variants as wv
+    table = []
     for v in case["variants"][chrom]:
         if case["history"].get("no_mav") and is_multi(v):
             continue
         if v.get("alts"):
-            vs.append(MultiallelicVcfVariant(v["pos"], v["ref"], list(v["alts"])))
+            table.append((v["pos"], MultiallelicVcfVariant(v["pos"], v["ref"], list(v["alts"])), Genotype(sorted(U[(sample, chrom, v["pos"])][1])), False))
         else:
-            vs.append(BiallelicVcfVariant(v["pos"], v["ref"], v["alt"]))
-        gts.append(Genotype(sorted(U[(sample, chrom, v["pos"])][1])))
-    with PhasedInputReader([bam], fa, NumericSampleIds(), False, only_snvs=False) as pir:
-        rs, _ = pir.read(chrom, vs, sample, restricted_genotypes=gts)
-        # the real vote loop on these reads, with the tables run_haplotagphase builds from Genotype.as_vector()
-        from collections import defaultdict
-        from whatshap.cli.haplotagphase import compute_votes
-        allele_to_id, homozygous = defaultdict(dict), {}
-        for v, g in zip(vs, gts):
-            for i, a in enumerate(g.as_vector()):
-                allele_to_id[v.position][a] = i
-            homozygous[v.position] = g.is_homozygous()
-        try:
-            votes = [[int(p), [[int(ps), int(k), int(q)] for (ps, k), q in inner.items()]]
-                     for p, inner in compute_votes(homozygous, rs, allele_to_id).items()]
-        except KeyError:
-            votes = "KeyError"
-        return [[r.PS_tag, r.HP_tag, [[v.position, v.allele, v.quality] for v in r]] for r in rs], votes
+            table.append((v["pos"], BiallelicVcfVariant(v["pos"], v["ref"], v["alt"]), Genotype(sorted(U[(sample, chrom, v["pos"])][1])), False))
+    for e in (case.get("extra") or {}).get(chrom, []):
+        if e["alts"]:            # records without ALT are skipped by VcfReader itself
+            table.append((e["pos"], BiallelicVcfVariant(e["pos"], e["ref"], e["alts"][0]), Genotype(gt_vector(e["gt"][sample])), True))
+    table.sort(key=lambda t: t[0])
+    vs, gts = [t[1] for t in table], [t[2] for t in table]
+    seen = set()
+    orig = wv.ReadSetReader.realign
+
+    def spy(variant, restricted, *a, **k):
+        seen.add((variant.position, tuple(restricted.as_vector()) if restricted is not None else None))
+        return orig(variant, restricted, *a, **k)
+    wv.ReadSetReader.realign = staticmethod(spy)
+    try:
+        with PhasedInputReader([bam], fa, NumericSampleIds(), False, only_snvs=False) as pir:
+            rs, _ = pir.read(chrom, vs, sample, restricted_genotypes=gts)
+    finally:
+        wv.ReadSetReader.realign = staticmethod(orig)
+    # the real vote loop on these reads, with the tables run_haplotagphase builds from Genotype.as_vector()
+    from collections import defaultdict
+    from whatshap.cli.haplotagphase import compute_votes
+    allele_to_id, homozygous = defaultdict(dict), {}
+    for v, g in zip(vs, gts):
+        for i, a in enumerate(g.as_vector()):
+            allele_to_id[v.position][a] = i
+        homozygous[v.position] = g.is_homozygous()
+    try:
+        votes = [[int(p), [[int(ps), int(k), int(q)] for (ps, k), q in inner.items()]]
+                 for p, inner in compute_votes(homozygous, rs, allele_to_id).items()]
+    except KeyError:
+        votes = "KeyError"
+    pairing = {"variants": [[t[0], t[3]] for t in table], "genotypes": [list(t[2].as_vector()) for t in table],
+               "seen": sorted([p, list(g)] for p, g in seen if g is not None)}
+    return [[r.PS_tag, r.HP_tag, [[v.position, v.allele, v.quality] for v in r]] for r in rs], votes, pairing
+
+
+def check_pairing(ctx, case, where, pairing):
+    """every variant that reaches re-alignment is re-aligned under the genotype of its OWN record (python oracle), and the
+    pairs seen are among the pairs of the Lean model (`realignPairs`: zip of the unfiltered table, then the symbolic test)"""
+    own = {p: g for (p, _), g in zip(pairing["variants"], pairing["genotypes"])}
+    symbolic = {p for p, sym in pairing["variants"] if sym}
+    seen = [x for x in pairing["seen"] if x[0] not in symbolic]      # the test for symbolic alleles sits inside realign
+    for p, g in seen:
+        if own.get(p) != g:
+            ctx.fail(f"{where}: the variant at {p + 1} is re-aligned under the genotype {g} of another record (its own: {own.get(p)})",
+                     case, key="restricted-genotype-misaligned")
+            break
+    ans = ctx.model.ask("c17.pairs", variants=pairing["variants"], genotypes=pairing["genotypes"])
+    model = ans.get("pairs") if isinstance(ans, dict) else None
+    if model is None or any(x not in model for x in seen):
+        if all(own.get(p) == g for p, g in seen):      # otherwise already reported as a failure
+            ctx.disagree("c17.pairs", {"case": case, "where": where}, seen, ans)
+    ctx.dist("pairing_symbolic_records", min(len(symbolic), 3))
 
 
 def run_case(ctx, case, d):
@@ -197,7 +242,8 @@ def run_case(ctx, case, d):
     U, UT = parse_vcf_text(Up, samples)
     Upy = parse_vcf(Up, samples)
     if hist.get("u_enc") != "hp" and Upy != U:
-        raise AssertionError("harness: text view and pysam view of U differ")
+        diff = [(k, Upy.get(k), U.get(k)) for k in sorted(set(Upy) | set(U), key=str) if Upy.get(k) != U.get(k)]
+        raise AssertionError(f"harness: text view and pysam view of U differ: {diff[:4]}")
     # ---- haplotagphase
     outp = os.path.join(d, "out.vcf")
     no_mav = bool(hist.get("no_mav"))
@@ -217,6 +263,7 @@ def run_case(ctx, case, d):
     rg_of = {s: {rid for rid, sm in case["read_groups"] if sm == s} for s in samples}
 
     n_new, n_sets, excluded, n_multi = 0, set(), 0, 0
+    whole = {}        # (sample, chrom) -> what the whole-run model needs
     for s in samples:
         for c in case["contigs"]:
             vs = case["variants"][c]
@@ -321,7 +368,8 @@ def run_case(ctx, case, d):
                                  len(v["ref"]) == 1 and all(len(a) == 1 for a in (v.get("alts") or [v["alt"]]))])
             # the model's block id of a phased call without a PS value is 0 (input and output alike)
             impl = [[v["pos"], ([O[(s, c, v["pos"])][2] or 0, *O[(s, c, v["pos"])][1]] if O[(s, c, v["pos"])][0] else None)] for v in mvs]
-            det, real_votes = detected_reads(fa, tagged, case, s, c, U)
+            det, real_votes, pairing = detected_reads(fa, tagged, case, s, c, U)
+            check_pairing(ctx, case, f"{c} {s}", pairing)
             # ground truth reads: alleles from the generator, tags from the tagged BAM, assembled by the model of create_read_from_group
             order, groups, tags = [], {}, {}
             for rec, a in zip(trecs, srt):
@@ -343,6 +391,9 @@ def run_case(ctx, case, d):
                     reqs.append(dict(base, repaired=rep, reads=treads)); labels.append(("truth" if grp_rep else "truth-orig-grouping", rep))
             answers = dict(zip(labels, ctx.model.ask_many(reqs)))
             # the vote table itself (per-position invariant of the vote loop, also for allele ids >= 2)
+            whole[(s, c)] = {"vars": vars_req, "reads": det, "impl": impl, "single": answers[("detected", True)].get("out"),
+                             "keep": [[v["pos"], ([U[(s, c, v["pos"])][2] or 0, *U[(s, c, v["pos"])][1]] if U[(s, c, v["pos"])][0] else None)] for v in mvs]}
+            compose_check(ctx, case, s, c, V, trecs, srt, rg_of, pos_of)
             mv = answers[("detected", True)].get("votes") if "error" not in answers[("detected", True)] else "KeyError"
             if mv != real_votes:
                 ctx.disagree("c17.run/votes", {"case": case, "chrom": c, "sample": s}, real_votes, mv)
@@ -374,6 +425,7 @@ def run_case(ctx, case, d):
                     diff = [(x, y) for x, y in zip(impl, a_rep.get("out") or []) if x != y]
                     ctx.fail(f"{c} {s}: output phase does not follow from the alleles and tags of the reads (ground truth): "
                              f"haplotagphase {diff[0][0] if diff else impl[:2]}, model {diff[0][1] if diff else a_rep}", case, key="truth-alleles")
+    runfile_check(ctx, case, samples, whole)
     ctx.validated()
     ctx.dist("multiallelic_newly_phased", min(n_multi, 8))
     ctx.dist("newly_phased", min(n_new // 3 * 3, 30)); ctx.dist("phase_sets", min(len(n_sets), 6)); ctx.dist("excluded_two_sets", min(excluded, 5))
@@ -382,6 +434,63 @@ def run_case(ctx, case, d):
     if len(ctx.samples) < 2:
         ctx.sample({"history": hist["source"] + "/" + hist["unphase"], "n_variants": sum(len(x) for x in case["variants"].values()),
                     "newly_phased_with_V_order": n_new, "phase_sets": sorted(str(x) for x in n_sets)[:6]})
+
+
+def runfile_check(ctx, case, samples, whole):
+    """`c17.runfile` = the loops of run_haplotagphase (all chromosomes, all samples, reads selected by read group,
+    consensus as coded, nothing handed to the writer = call kept) against the real output, record by record"""
+    chroms = []
+    for c in case["contigs"]:
+        if any((s, c) not in whole for s in samples):
+            return
+        chroms.append({"name": c, "ref": case["contigs"][c], "inBam": True,
+                       "tables": [{"name": s, "vars": whole[(s, c)]["vars"]} for s in samples],
+                       "reads": [[s, r[0], r[1], r[2]] for s in samples for r in whole[(s, c)]["reads"]]})
+    ans = ctx.model.ask("c17.runfile", reference=True, ignoreRG=False, chromosomes=[], onlyIndels=False, gap=70, cut=10,
+                        samples=samples, bamSamples=samples, chroms=chroms)
+    ctx.dist("runfile_compared", 1)
+    if not isinstance(ans, dict) or "chroms" not in ans:
+        if all(w["single"] == w["impl"] for w in whole.values()):
+            ctx.disagree("c17.runfile", {"case": case}, "run ends normally", ans)
+        return
+    for oc in ans["chroms"]:
+        for sc in oc["samples"]:
+            w = whole[(sc["name"], oc["name"])]
+            # keep mode: a call the writer gets no phase for stays as it is in the input
+            out = [[p, ph if ph is not None else k[1]] for (p, ph), k in zip(sc["out"], w["keep"])]
+            if out != w["impl"] and w["single"] == w["impl"]:
+                diff = [(x, y) for x, y in zip(w["impl"], out) if x != y]
+                ctx.disagree("c17.runfile", {"case": case, "chrom": oc["name"], "sample": sc["name"]}, diff[:3], "model of the whole run")
+
+
+def compose_check(ctx, case, s, c, V, trecs, srt, rg_of, pos_of):
+    """`c17.compose` = the tags the C10 model (`tagDecision`, HP = haplotype + 1, PS = reported set) puts on a read with the
+    ground-truth alleles against V, versus the HP/PS the real haplotag wrote (single-alignment templates, no linked reads)"""
+    if case.get("bx_cutoff"):
+        return
+    vs = case["variants"][c]
+    info = []
+    for v in vs:
+        ph, al, ps = V[(s, c, v["pos"])]
+        if ph and ps is not None and not is_multi(v) and len(set(al)) == 2 and set(al) <= {0, 1}:
+            info.append([v["pos"], ps, list(al)])
+    count = {}
+    for rec in trecs:
+        if rec["chrom"] == c:
+            count[rec["name"]] = count.get(rec["name"], 0) + 1
+    reads, real = [], []
+    for rec, a in zip(trecs, srt):
+        if rec["chrom"] != c or rec["rg"] not in rg_of[s] or not usable17(rec) or count[rec["name"]] != 1:
+            continue
+        reads.append([[pos_of[i], al, 30] for i, al in a["truth"]])
+        real.append([rec["ps"], rec["hp"]])
+    if not reads:
+        return
+    ans = ctx.model.ask("c17.compose", info=info, reads=reads)
+    ctx.dist("compose_reads_compared", min(len(reads) // 10 * 10, 50))
+    if ans != real:
+        diff = [(i, x, y) for i, (x, y) in enumerate(zip(real, ans if isinstance(ans, list) else [])) if x != y]
+        ctx.disagree("c17.compose", {"case": case, "chrom": c, "sample": s}, diff[:3] or real[:3], ans if not diff else "C10 model tags")
 
 
 FORM_TEXT = {"ps": "phased GT with PS", "nokey": "phased GT, no PS in the record", "dot": "phased GT, PS missing", "zero": "phased GT, PS 0",
